@@ -697,7 +697,7 @@ def run(ctx):
     b = ctx.build_props(extra_targets=["theories/C19/RunF.vo", "theories/C19/RunQ.vo"])
     ctx.hygiene(["Lib", "C19"])
 
-    mult = 1 if quick else 40
+    mult = 1 if quick else 25
     cases = load_corpus()
     ncorpus = len(cases)
     plan = [(lambda: gen_sphere(rng, "sphere"), 90), (lambda: gen_sphere(rng, "ball"), 110), (lambda: gen_box(rng), 170),
@@ -765,10 +765,11 @@ def run(ctx):
                    "correspondence", not proto, "; ".join("%s: %s" % (cases[i]["kind"], m) for i, m in proto[:5]))
     bad_f = bad_q = []
     if b["model_ok"]:
-        shard = max(20, -(-len(fterms) // core.NCPU))
-        bad_f = ctx.run_cases("float", HEADER_F, fterms, "check_f", case_type="fcase", shard=shard)
-        shard = max(20, -(-len(qterms) // core.NCPU))
-        bad_q = ctx.run_cases("exact", HEADER_Q, qterms, "check_q", case_type="qcase", shard=shard)
+        shard = min(400, max(20, -(-len(fterms) // core.NCPU)))
+        ctx.log("implementation ran on %d cases, oracle failures: %d; evaluating the model in Coq" % (len(cases), len(fails)))
+        bad_f = ctx.run_cases("float", HEADER_F, fterms, "check_f", case_type="fcase", shard=shard, timeout=900)
+        shard = min(400, max(20, -(-len(qterms) // core.NCPU)))
+        bad_q = ctx.run_cases("exact", HEADER_Q, qterms, "check_q", case_type="qcase", shard=shard, timeout=900)
     else:
         ctx.obligation("correspondence batches", "correspondence", False, "model does not compile")
     disagree = [fidx[i] for i in (bad_f or [])] + [qidx[i] for i in (bad_q or [])]
